@@ -6,6 +6,7 @@ Filters are module-level callables (picklable by reference, so warm neighbor
 caches keyed by them survive a pickle round trip) that consult the *current*
 index maps set by `evaluate`.
 """
+from eglib import h
 from eglib import classes as C
 
 _VI = {}
@@ -73,20 +74,20 @@ def evaluate(vs, ls, unis=(), level=2, unhashable=True, searches=True):
                         f = MF.accept  # a fresh, equal bound method at every access
                     elif fname == "unhashable" and f is None:
                         continue
-                    out.append((f"nb v{i} d{d} u{u} {fname}", _call(lambda: helpers.neighbors(v, d, u, f), vl)))
+                    out.append((f"nb v{i} d{d} u{u} {fname}", _call(lambda: h.neighbors(v, d, u, f), vl)))
         # bound methods of two differently configured objects of one class
-        out.append((f"nb v{i} d1 u1 method-of-other-instance", _call(lambda: helpers.neighbors(v, 1, 1, MF2.accept), vl)))
-        out.append((f"nb v{i} d1 u1 method-again", _call(lambda: helpers.neighbors(v, 1, 1, MF.accept), vl)))
+        out.append((f"nb v{i} d1 u1 method-of-other-instance", _call(lambda: h.neighbors(v, 1, 1, MF2.accept), vl)))
+        out.append((f"nb v{i} d1 u1 method-again", _call(lambda: h.neighbors(v, 1, 1, MF.accept), vl)))
         # two short-lived callables with different behaviour (a cache keyed on anything but the
         # callable itself, e.g. its id(), would confuse them)
-        out.append((f"nb v{i} d1 u1 fresh-accept", _call(lambda: helpers.neighbors(v, 1, 1, lambda e, x: True), vl)))
-        out.append((f"nb v{i} d1 u1 fresh-reject", _call(lambda: helpers.neighbors(v, 1, 1, lambda e, x: False), vl)))
+        out.append((f"nb v{i} d1 u1 fresh-accept", _call(lambda: h.neighbors(v, 1, 1, lambda e, x: True), vl)))
+        out.append((f"nb v{i} d1 u1 fresh-reject", _call(lambda: h.neighbors(v, 1, 1, lambda e, x: False), vl)))
         if unhashable:
             # the same with short-lived UNHASHABLE callables (and their bound methods)
-            out.append((f"nb v{i} d1 u1 fresh-unhashable-accept", _call(lambda: helpers.neighbors(v, 1, 1, C.UnhashableFilter(f_accept)), vl)))
-            out.append((f"nb v{i} d1 u1 fresh-unhashable-select", _call(lambda: helpers.neighbors(v, 1, 1, C.UnhashableFilter(f_select)), vl)))
-            out.append((f"nb v{i} d0 u1 fresh-unhashable-method", _call(lambda: helpers.neighbors(v, 0, 1, C.UnhashableFilter(f_select).__call__), vl)))
-            out.append((f"nb v{i} d0 u1 fresh-unhashable-method2", _call(lambda: helpers.neighbors(v, 0, 1, C.UnhashableFilter(f_accept).__call__), vl)))
+            out.append((f"nb v{i} d1 u1 fresh-unhashable-accept", _call(lambda: h.neighbors(v, 1, 1, C.UnhashableFilter(f_accept)), vl)))
+            out.append((f"nb v{i} d1 u1 fresh-unhashable-select", _call(lambda: h.neighbors(v, 1, 1, C.UnhashableFilter(f_select)), vl)))
+            out.append((f"nb v{i} d0 u1 fresh-unhashable-method", _call(lambda: h.neighbors(v, 0, 1, C.UnhashableFilter(f_select).__call__), vl)))
+            out.append((f"nb v{i} d0 u1 fresh-unhashable-method2", _call(lambda: h.neighbors(v, 0, 1, C.UnhashableFilter(f_accept).__call__), vl)))
     if level < 2:
         return out
     universes = [None] + list(unis)
@@ -95,7 +96,7 @@ def evaluate(vs, ls, unis=(), level=2, unhashable=True, searches=True):
             if uni is not None and all(v is not x for x in uni.vertices):
                 continue
             for d, u, via, res in ((0, 0, None, None), (1, 1, f_select, None), (2, 1, None, r_select), (0, 2, None, None)):
-                kw = dict(direction_sensitive=d, unknown_handling=u, ff_via=via, ff_result=res)
+                kw = h.kw(d, u, ff_via=via, ff_result=res)
                 tag = f"U{ui} v{i} d{d} u{u} via={'sel' if via else '-'} res={'sel' if res else '-'}"
                 out.append(("bft " + tag, _call(lambda: B.bft(uni, v, **kw), vl)))
                 out.append(("dft_recursive " + tag, _call(lambda: D.dft_recursive(uni, v, **kw), vl)))
@@ -109,7 +110,7 @@ def evaluate(vs, ls, unis=(), level=2, unhashable=True, searches=True):
     for i, a in enumerate(vs):
         for j, b in enumerate(vs):
             for ds, u, f in ((True, 1, None), (False, 0, f_select1), (True, 2, None)):
-                out.append((f"find_links v{i} v{j} ds={ds} u{u} {'sel' if f else '-'}", _call(lambda: helpers.find_links(a, b, ds, u, f), ll)))
+                out.append((f"find_links v{i} v{j} ds={ds} u{u} {'sel' if f else '-'}", _call(lambda: h.find_links(a, b, ds, u, f), ll)))
     return out
 
 
@@ -149,7 +150,7 @@ def partial(vs, ls, i, n):
     for d, u, fn, f in qs[:n]:
         if fn == "method":
             f = MF.accept
-        out.append((f"nb v{i} d{d} u{u} {fn}", _call(lambda: helpers.neighbors(vs[i], d, u, f), vl)))
+        out.append((f"nb v{i} d{d} u{u} {fn}", _call(lambda: h.neighbors(vs[i], d, u, f), vl)))
     return out
 
 
